@@ -11,7 +11,8 @@ use regex::{Regex, RegexSet};
 
 verus! {
 
-//%include prelude/externals.rs
+//%include prelude/externals_re.rs
+//%include prelude/externals_val.rs
 //%include prelude/stdspecs.rs
 //%include prelude/iters.rs
 
@@ -31,7 +32,9 @@ verus! {
 //%item solver.rs SolverResult pub\(crate\) enum SolverResult
 
 //%include spec/model.rs
+//%include spec/shape.rs
 //%include spec/sem.rs
+//%include spec/syntax.rs
 //%include spec/lemmas.rs
 //%item solver.rs Cache struct Cache
 //%item solver.rs impl_Cache impl Document for Cache
